@@ -267,7 +267,7 @@ pub fn specs() -> Vec<PropSpec> {
             engine: "byz",
             budget_s: (50, 600),
             level: "exploration",
-            rule: "honest source H, honest victim V, adversary M holding its own key (own-rows right on one entity of room r1, from a known date, possibly disabled later) and every validly signed row it was served; V runs its real pull of r1 while M rewrites H's answers: 13 operators (row of another room, author without right, dated before enabled / after disabled, foreign row replaced or deleted with the own-rows right only, tampered fields under the original signature, oversized, model-violating, unknown entity, reference whose source row is elsewhere, row moved from a room without right, and a legitimate row as control), interleaved with honest writes, honest pulls and the disabling of M; after each session nothing injected may be found in any table of V and V's copy of the attacked rows is unchanged; distinct = distinct schedule signature (operators, answers actually rewritten, session outcome)",
+            rule: "honest source H, honest victim V, adversary M holding its own key (own-rows right on one entity of room r1, from a known date, possibly disabled later) and every validly signed row it was served; V runs its real pull of r1 while M rewrites H's answers: 21 operators (row of another room, author without right, dated before enabled / after disabled, foreign row replaced or deleted with the own-rows right only, tampered fields under the original signature, oversized, model-violating, unknown entity or label, reference whose source row is elsewhere, absent or somebody else's, row moved from a room without right (also into a room where M has every right), own row deleted after M was disabled, deletion records naming another room than the row's, and a legitimate row as control), interleaved with honest writes, honest pulls and the disabling of M; after each session nothing injected may be found in any table of V, V's copy of the attacked rows is unchanged, the honest rows of the same batch are stored, and after an undisturbed pull everything V stores is something H stores or a row M was entitled to write; distinct = distinct schedule signature (operators, answers actually rewritten, session outcome)",
             assumptions: &["the adversary cannot forge signatures of keys it does not hold (ed25519 is real in the run)", "an operator whose answer kind was never requested in the session is counted as not applied"],
             real: repl_real,
             stub: STUB_NET,
@@ -278,7 +278,7 @@ pub fn specs() -> Vec<PropSpec> {
             engine: "byz,rights",
             budget_s: (40, 600),
             level: "exploration",
-            rule: "two engines, alternating seeds. rights: the C01 workload (every operation shape by 2-4 identities, barriered pulls) with, after every accepted local operation and after every synchronisation, every stored row, reference and deletion record of every node verified against its own signature exactly as stored. byz: as C02 with the signature operators: a validly signed reference re-cut at the boundary between its unlength-prefixed fields (source entity \"11\" + label \"32\" -> \"1\" + \"132\", both reference fields of a model built for the purpose), and rows / references in H's name whose signature is the answer H gives to an identity challenge chosen by M; nothing H did not write may be stored by V under H's key",
+            rule: "two engines, alternating seeds. rights: the C01 workload (every operation shape by 2-4 identities, barriered pulls) with, after every accepted local operation and after every synchronisation, every stored row, reference and deletion record of every node verified against its own signature exactly as stored. byz: as C02 with the signature operators: a validly signed reference re-cut at the boundary between its unlength-prefixed fields (source entity \"11\" + label \"32\" -> \"1\" + \"132\", both reference fields of a model built for the purpose), a row re-cut between its JSON text and its binary field or between its entity name and its JSON text, and rows / references in H's name whose signature is the answer H gives to an identity challenge chosen by M; nothing H did not write may be stored by V under H's key",
             assumptions: &["splices need adjacent variable-length fields in the digest: only references have them (rows serialise their fields through JSON and fixed-size values)"],
             real: repl_real,
             stub: STUB_NET,
@@ -289,7 +289,7 @@ pub fn specs() -> Vec<PropSpec> {
             engine: "byz",
             budget_s: (40, 600),
             level: "exploration",
-            rule: "as C02 with the room-definition operators: M claims a newer definition date and substitutes the definition V imports (real add_room_node / prepare_room_with_history): older definition with entries omitted, admin-signed user entry re-attached as admin or moved to the all-rights group by a reference M signs, self-signed admin / right / user-admin entries, right entry of another room; V's stored entries before must all be stored unchanged after, nothing new stored, and V's decision grid {3 identities} x {entities} x {dates} x {admin, member, own, all} unchanged",
+            rule: "as C02 with the room-definition operators: M claims a newer definition date and substitutes the definition V imports (real add_room_node / prepare_room_with_history): older definition with entries omitted (alone, or with a legitimately new entry: V must then end with the honest definition exactly), admin-signed user entry re-attached as admin or moved to the all-rights group by a reference M signs, self-signed admin / right / user-admin entries, right entry of another room, existing reference signed again, existing entry altered under the same id, user entry signed by a revoked user admin, right signed by a former admin after its revocation; the same operators served to a member W that never saw the room; V's stored entries before must all be stored unchanged after, nothing new stored, and V's decision grid {3 identities} x {entities} x {dates} x {admin, member, own, all} unchanged",
             assumptions: &["none of the crafted definitions contains an entry added by somebody entitled to, so any change is a violation"],
             real: repl_real,
             stub: STUB_NET,
